@@ -56,6 +56,14 @@ seeded/C07-a/patch.diff C07
 seeded/C08-a/patch.diff C08
 seeded/C09-a/patch.diff C09
 seeded/C18-a/patch.diff C18
+seeded/C02-b/patch.diff C02
+seeded/C03-b/patch.diff C03
+seeded/C04-b/patch.diff C04
+seeded/C10-b/patch.diff C10
+seeded/C11-b/patch.diff C11
+seeded/C13-b/patch.diff C13
+seeded/C14-b/patch.diff C14
+seeded/C16-b/patch.diff C16
 selftest/mutants/F5-reintroduce.patch C06
 selftest/mutants/F6-reintroduce.patch C06
 LIST
